@@ -8,6 +8,7 @@ From RbxVerif Require Import XmlEvents XmlValues XmlFile MigrationTables XmlSpec
 From RbxVerif Require Import BinFile MigrationTables.
 From RbxVerif Require Import Hex BitSets Tags MaterialColors BrickColorTbl Types17.
 From RbxVerif Require Import Lz4 BinSpec.
+From RbxVerif Require Import SerdeTok Serde17.
 Extraction Language OCaml.
 Set Extraction KeepSingleton.
 Extraction "model.ml" BinFile.encode_chunks BinFile.encode_file BinFile.decode_file BinFile.decode_chunks BinFile.FILE_FOOTER BinFile.CH_END BinFile.mk_inst BinFile.inst_fields BinValues.enc_col BinValues.dec_col BinValues.wire_of_id BinValues.f64_of_f32 Utf8Lossy.utf8_lossy MigrationTables.font_migration_table MigrationTables.brick_color_table
@@ -15,4 +16,5 @@ Extraction "model.ml" BinFile.encode_chunks BinFile.encode_file BinFile.decode_f
   Dom.step Dom.world0 Dom.dom_descendants_of Tree.astep Tree.aworld0 Tree.aflat Tree.bfs_all Tree.ffind
   Hex.ref_display Hex.ref_from_str Hex.uid_display Hex.uid_from_str Tags.tags_encode Tags.tags_decode MaterialColors.mc_encode MaterialColors.mc_decode MaterialColors.mc_get_color BitSets.FACES BitSets.AXES BitSets.flags_from_bits BitSets.flags_names BitSets.flags_of_names BrickColorTbl.bc_from_number BrickColorTbl.bc_from_name BrickColorTbl.num_to_variant BrickColorTbl.variant_to_num Types17.material_table Types17.brick_entries Types17.font_weight_from Types17.font_weight_as Types17.font_style_from Types17.font_style_as
   BinSpec.bspec_decode_gen BinSpec.bspec_decode_chunks BinSpec.bspec_to_dom BinSpec.bspec_encode BinSpec.bspec_encode_chunks BinSpec.bs_canonical_order BinSpec.bs_wf BinSpec.bs_doc_wf BinSpec.bs_literal BinSpec.bs_amended BinSpec.p_header BinSpec.bs_deframe BinSpec.bs_inflate_all BinSpec.bs_parse_items BinSpec.bs_assemble BinSpec.cl_header_counts BinSpec.cl_unique_class_ids BinSpec.cl_unique_class_names BinSpec.cl_prop_lengths BinSpec.cl_prnt_once BinSpec.cl_prnt_children_first BinSpec.cl_sstr_distinct BinSpec.end_last BinSpec.cl_chunk_lengths BinSpec.cl_ends_with_end Lz4.lz4_decode Lz4.literal_only_block
-  Intern.tstep Intern.tinit Intern.table_len.
+  Intern.tstep Intern.tinit Intern.table_len
+  Serde17.run_ser17 Serde17.run_de17 Serde17.serde17_samples.
